@@ -348,6 +348,12 @@ structure MarkSt where
   defs : RegSet := 0#32
   ret : Option Nat := none
 
+/-- an additional return `i` of a function whose exit is `r`: `i` becomes a jump to `r`
+    (found_ret.nexts := {prev_ret}; prev_ret.prevs += found_ret; node := jump) -/
+def rewireReturn (g : Cfg) (i r : Nat) : Cfg :=
+  (g.modify i fun m => { m with nexts := [r], node := returnJump m (g.get r).node.tok }).modify r
+    fun m => { m with prevs := insNat i m.prevs }
+
 def markLoop (desc : Bool) (entry : Nat) : Nat → MarkSt → MarkSt
   | 0, st => st
   | fuel + 1, st =>
@@ -370,27 +376,33 @@ def markLoop (desc : Bool) (entry : Nat) : Nat → MarkSt → MarkSt
           match st.ret with
           | some r =>
             -- rewire: found_ret.nexts := {prev_ret}; prev_ret.prevs += found_ret; node := jump
-            let g2 := g1.modify i fun m =>
-              { m with nexts := [r], node := returnJump m (g1.get r).node.tok }
-            let g3 := g2.modify r fun m => { m with prevs := insNat i m.prevs }
-            markLoop desc entry fuel { st' with g := g3 }
+            markLoop desc entry fuel { st' with g := rewireReturn g1 i r }
           | none => markLoop desc entry fuel { st' with ret := some i }
         else markLoop desc entry fuel st'
 
-def markup (desc : Bool) (g0 : Cfg) : Except CfgErr Cfg := do
-  let mut g := g0
-  for e in List.range g0.nodes.size do
-    if !(g.get e).node.isFunctionEntry then continue
+def markFuel (g : Cfg) : Nat := 4 * (g.nodes.size + 1) * (g.nodes.size + 1) + 16
+
+/-- `FunctionMarkupPass` at one node index: nothing unless it is a function entry -/
+def markStep (desc : Bool) (g : Cfg) (e : Nat) : Except CfgErr Cfg :=
+  if !(g.get e).node.isFunctionEntry then .ok g
+  else
     let labels := (g.get e).labels
-    let fuel := 4 * (g.nodes.size + 1) * (g.nodes.size + 1) + 16
-    let st := markLoop desc e fuel { g := g, stack := [e] }
+    let st := markLoop desc e (markFuel g) { g := g, stack := [e] }
     match st.ret with
-    | none => throw .unexpectedError
+    | none => .error .unexpectedError
     | some r =>
-      g := { st.g with
+      .ok { st.g with
         funcs := st.g.funcs ++ [{ entry := e, exit := r, nodes := st.insts.reverse, defs := st.defs }],
         labelFunc := labels.foldl (fun lf l => (l.val, e) :: lf.filter (·.1 != l.val)) st.g.labelFunc }
-  pure g
+
+def markAll (desc : Bool) : List Nat → Cfg → Except CfgErr Cfg
+  | [], g => .ok g
+  | e :: rest, g =>
+    match markStep desc g e with
+    | .ok g' => markAll desc rest g'
+    | .error err => .error err
+
+def markup (desc : Bool) (g0 : Cfg) : Except CfgErr Cfg := markAll desc (List.range g0.nodes.size) g0
 
 def Cfg.funcOfEntry (g : Cfg) (e : Nat) : Option Func := g.funcs.find? (·.entry == e)
 def Cfg.funcOfLabel (g : Cfg) (l : String) : Option Func :=
